@@ -8,10 +8,12 @@ impl Path {
         ensures r == self.exists_spec(),
     { unimplemented!() }
 }
-// stands for `AsRef<Path>`
-pub trait AsRefPath {
-    fn as_ref(&self) -> &Path;
-}
+// stub U15: `path.as_ref()` for P: AsRef<Path>
+pub uninterp spec fn path_of<P>(p: P) -> Path;
+#[verifier::external_body]
+fn as_ref_path<P: AsRef<Path>>(p: &P) -> (r: &Path)
+    ensures *r == path_of(*p),
+{ unimplemented!() }
 impl File {
     // fs4::FileExt::allocate(&self, len): on Ok the file is at least len bytes long; no byte of it is written
     #[verifier::external_body]
@@ -36,7 +38,7 @@ fn mmap(file: &File, populate: bool) -> (r: Result<Mmap>)
 // page_size::get()
 #[verifier::external_body]
 fn get_page_size() -> (r: usize)
-    ensures r % 8 == 0, r >= 1024,     // ASSUMED: OS page sizes are multiples of 8 and at least 1 KiB
+    ensures r % 8 == 0,     // ASSUMED: OS page sizes are multiples of 8
 { unimplemented!() }
 
 // stub U13: the closure `get_page` in init_file: `&mut *(&mut buf[(index * pagesize) as usize] as *mut u8 as *mut Page)`
